@@ -5,6 +5,7 @@ import (
 	"path/filepath"
 	"runtime"
 	"sort"
+	"strings"
 	"testing"
 
 	"github.com/google/uuid"
@@ -282,12 +283,16 @@ func TestReplayFilters(t *testing.T) { vt.Replay(t, "filters", execCase) }
 
 func TestPropD7Probe(t *testing.T) {
 	rec := vt.R()
-	for _, kind := range []string{"string", "stringArray"} {
+	for _, kind := range []string{"string", "stringArray", "long string"} {
 		schema := models.IndexSchema{}
 		var doc model.Doc
 		if kind == "string" {
 			schema["s"] = models.IndexSchemaValue{Type: models.IndexTypeString, String: &models.IndexStringParameters{CaseSensitive: true}}
 			doc = model.Doc{"s": ""}
+		} else if kind == "long string" {
+			// the other end of the storage engine's key lengths: 32768 bytes is the longest key
+			schema["s"] = models.IndexSchemaValue{Type: models.IndexTypeString, String: &models.IndexStringParameters{CaseSensitive: true}}
+			doc = model.Doc{"s": strings.Repeat("a", 32769)}
 		} else {
 			schema["tags"] = models.IndexSchemaValue{Type: models.IndexTypeStringArray, StringArray: &models.IndexStringArrayParameters{IndexStringParameters: models.IndexStringParameters{CaseSensitive: true}}}
 			doc = model.Doc{"tags": []string{"a", ""}}
@@ -302,7 +307,7 @@ func TestPropD7Probe(t *testing.T) {
 		id := gen.IdPool(1)[0]
 		err = s.Insert([]model.Point{{Id: id, Doc: doc}})
 		if err != nil {
-			rec.Known("D7", "indexed empty string rejected: "+kind, err.Error())
+			rec.Known("D7", "indexed string that cannot be a storage key rejected: "+kind, err.Error())
 		} else {
 			// accepted: then it must be found
 			m := model.NewCollection(schema, 1<<20)
@@ -310,6 +315,8 @@ func TestPropD7Probe(t *testing.T) {
 			var q models.Query
 			if kind == "string" {
 				q = models.Query{Property: "s", String: &models.SearchStringOptions{Value: "a", Operator: models.OperatorLessThan}}
+			} else if kind == "long string" {
+				q = models.Query{Property: "s", String: &models.SearchStringOptions{Value: "a", Operator: models.OperatorStartsWith}}
 			} else {
 				q = models.Query{Property: "tags", StringArray: &models.SearchStringArrayOptions{Value: []string{""}, Operator: models.OperatorContainsAny}}
 			}
